@@ -407,6 +407,7 @@ func checkC17(c *Ctx) {
 	for _, sc := range selCalls {
 		sel := sc.Common().StaticCallee()
 		sname := "dispatcher." + sel.Name()
+		byEval := checkSelectionByEvaluation(c, "C17.R4", sname, sel, preds)
 		var newE, oldE []Edge
 		for _, b := range sel.Blocks {
 			for i := range b.Succs {
@@ -465,6 +466,7 @@ func checkC17(c *Ctx) {
 				okOld = false
 			}
 		}
+		if !byEval {
 		c.Check(okNew && len(newE) > 0, "C17.R4", sname+":newest_valid=>After", p.Pos(sel.Pos()), "newest_valid compares candidate.ValidFrom.After(selected.ValidFrom)", "newest_valid does not replace on After")
 		c.Check(okOld && len(oldE) > 0, "C17.R4", sname+":oldest_valid=>Before", p.Pos(sel.Pos()), "oldest_valid compares candidate.ValidFrom.Before(selected.ValidFrom)", "oldest_valid does not replace on Before")
 		okTie := len(idLess) > 0 && len(equalTrue) > 0
@@ -474,6 +476,7 @@ func checkC17(c *Ctx) {
 			}
 		}
 		c.Check(okTie, "C17.R4", sname+":tie=>smaller-id", p.Pos(sel.Pos()), "equal ValidFrom resolved by the smaller id", "ties are not resolved by the smaller id behind ValidFrom.Equal")
+		}
 		// every successful return either is the no-versions exit or lies after the exhausted scan over the versions
 		var scanHeader *ssa.BasicBlock
 		for _, b := range sel.Blocks {
